@@ -66,10 +66,12 @@ Proof.
   - cbn [rows]. eapply perm_trans; [apply Permutation_sym, Pm|exact P2].
 Qed.
 
+Lemma Forall2_len {A B} (R : A -> B -> Prop) l1 l2 : Forall2 R l1 l2 -> List.length l1 = List.length l2.
+Proof. induction 1; simpl; congruence. Qed.
 Lemma refines_same_set t u : refines t u -> same_set (cols t) (cols u).
 Proof. intros [v [[S _] [C _]]]. rewrite <- C. exact S. Qed.
 Lemma refines_row_count t u : refines t u -> List.length (rows t) = List.length (rows u).
-Proof. intros [v [[_ F] [_ P]]]. rewrite (Forall2_length F). apply Permutation_length, P. Qed.
+Proof. intros [v [[_ F] [_ P]]]. rewrite (Forall2_len _ _ _ F). apply Permutation_length, P. Qed.
 
 (* ------------------------------------------------------------------ sorting routines *)
 Definition sorter_ok (srt : sorter) : Prop :=
